@@ -25,7 +25,7 @@ type refcountEngine struct {
 
 func init() { engines["refcount"] = func() engine { return &refcountEngine{} } }
 
-var refcountPoints = map[string]bool{"OPEN_LOAD": true, "OPEN_CAS": true, "CLOSE_DEC": true, "CLOSE_RETIRE": true, "CLOSE_GC": true,
+var refcountPoints = map[string]bool{"OPEN_LOAD": true, "OPEN_CAS": true, "CLOSE_DEC": true, "CLOSE_RETIRE": true, "CLOSE_RETIRE2": true, "CLOSE_GC": true,
 	"GC_TRY_LOCK": true, "GC_UNLOCK": true, "COLLECT_READ": true, "COLLECT_SEND": true, "GC_RECHECK": true}
 
 func (e *refcountEngine) teardown() {
